@@ -28,6 +28,14 @@ impl Hasher for IdentityHash {
 #[derive(Clone)]
 pub struct RandomState(u64);
 
+#[cfg(feature = "verif-hooks")]
+impl RandomState {
+    /// verification hook: build a hasher state from a caller-chosen salt
+    pub fn with_seed(seed: u64) -> Self {
+        Self(seed)
+    }
+}
+
 impl Default for RandomState {
     fn default() -> Self {
         let mut rng = rand::rng();
